@@ -1176,6 +1176,14 @@ func checkC08(w *World, r *Report) {
 		nonOpt := at.Has(depName + ".Optional=false")
 		nonGroup := at.Has(depName + ".Group=empty")
 		builtinOK := at.Has("not-builtin") || at.Has(depName+".Key=nonnil")
+		// through a predicate: `if dep.Key == nil && isReservedType(dep.Type) { continue }`
+		for k := range at {
+			for _, pc := range reservedPredicateCalls(w, fi, dep) {
+				if k == pc+"=false" || k == "or("+depName+".Key=nonnil|"+pc+"=false)" || k == "or("+pc+"=false|"+depName+".Key=nonnil)" {
+					builtinOK = true
+				}
+			}
+		}
 		for k := range at {
 			if strings.HasPrefix(k, "or(") && strings.Contains(k, "=false|"+depName+".Key=nonnil)") {
 				name := strings.TrimSuffix(strings.TrimPrefix(k, "or("), "=false|"+depName+".Key=nonnil)")
@@ -1196,6 +1204,94 @@ func checkC08(w *World, r *Report) {
 	}
 	if nErr == 0 {
 		r.Fail("R08.1", fi.Name()+"#missing-dependency-error/0", fi.Decl.Pos(), "the presence check never fails: unregistered required dependencies are accepted at Build for every lifetime")
+	}
+	// the converse for the built-ins: only the *unkeyed* built-in is injectable, so a dependency is
+	// exempted as "built-in" only where its key is known to be nil (a keyed dependency on
+	// context.Context can never be satisfied: reserved types cannot be registered)
+	{
+		preds := reservedPredicateCalls(w, fi, dep)
+		// ok-variables of a direct lookup in the reserved table: _, isBuiltin := reservedTypes[dep.Type]
+		builtinVars := map[types.Object]bool{}
+		ast.Inspect(inner.Body, func(x ast.Node) bool {
+			if as, ok := x.(*ast.AssignStmt); ok && len(as.Lhs) == 2 && len(as.Rhs) == 1 {
+				if ix, ok := unparen(as.Rhs[0]).(*ast.IndexExpr); ok {
+					if o := objOf(info, ix.X); o != nil && o.Name() == "reservedTypes" {
+						builtinVars[objOf(info, as.Lhs[1])] = true
+					}
+				}
+			}
+			return true
+		})
+		isBuiltinTest := func(e ast.Expr) bool {
+			e = unparen(e)
+			if builtinVars[objOf(info, e)] {
+				return true
+			}
+			for _, pc := range preds {
+				if exprStr(e) == pc {
+					return true
+				}
+			}
+			return false
+		}
+		isKeyNil := func(e ast.Expr) bool {
+			for _, f := range condFacts(info, e, true) {
+				if f == depName+".Key=nil" {
+					return true
+				}
+			}
+			return false
+		}
+		var split func(e ast.Expr, op token.Token) []ast.Expr
+		split = func(e ast.Expr, op token.Token) []ast.Expr {
+			if be, ok := unparen(e).(*ast.BinaryExpr); ok && be.Op == op {
+				return append(split(be.X, op), split(be.Y, op)...)
+			}
+			return []ast.Expr{unparen(e)}
+		}
+		nSkip := 0
+		ast.Inspect(inner.Body, func(x ast.Node) bool {
+			ifs, ok := x.(*ast.IfStmt)
+			if !ok || len(ifs.Body.List) == 0 {
+				return true
+			}
+			br, ok := ifs.Body.List[len(ifs.Body.List)-1].(*ast.BranchStmt)
+			if !ok || br.Tok != token.CONTINUE {
+				return true
+			}
+			for _, d := range split(ifs.Cond, token.LOR) {
+				conj := split(d, token.LAND)
+				hasBuiltin, hasKeyNil := false, false
+				for _, c := range conj {
+					if isBuiltinTest(c) {
+						hasBuiltin = true
+					}
+					if isKeyNil(c) {
+						hasKeyNil = true
+					}
+				}
+				if !hasBuiltin {
+					continue
+				}
+				// the key test may also enclose the if
+				conds, vals := controllingCondsInfo(info, inner.Body, ifs.Pos())
+				for i, cd := range conds {
+					if vals[i] && isKeyNil(cd) {
+						hasKeyNil = true
+					}
+					for _, f := range condFacts(info, cd, vals[i]) {
+						if f == depName+".Key=nil" {
+							hasKeyNil = true
+						}
+					}
+				}
+				nSkip++
+				r.Check(hasKeyNil, "R08.1a", fmt.Sprintf("%s#builtin-exemption/%d", fi.Name(), nSkip), ifs.Pos(), true,
+					"a dependency is exempted as a built-in only when it is unkeyed",
+					"a dependency on a built-in type is exempted from the presence check without its key having been found nil: a keyed dependency on context.Context / Scope / Provider is accepted at Build although it can never be resolved")
+			}
+			return true
+		})
 	}
 	// R08.1b: no dependence on the dependent's lifetime
 	{
@@ -1459,4 +1555,57 @@ func groupLinker(w *World) *FuncInfo {
 		}
 	}
 	return link
+}
+
+// reservedPredicate: a function func(t reflect.Type) bool whose answer is the
+// membership of its parameter in the reserved-types table.
+func reservedPredicate(w *World, cal *types.Func) bool {
+	t := w.Decls[cal]
+	if t == nil || t.Decl.Body == nil {
+		return false
+	}
+	sig := cal.Type().(*types.Signature)
+	if sig.Params().Len() != 1 || sig.Results().Len() != 1 || !isNamedType(sig.Params().At(0).Type(), "reflect", "Type") {
+		return false
+	}
+	if b, ok := sig.Results().At(0).Type().Underlying().(*types.Basic); !ok || b.Info()&types.IsBoolean == 0 {
+		return false
+	}
+	info := t.Pkg.TypesInfo
+	var param types.Object
+	if len(t.Decl.Type.Params.List) == 1 && len(t.Decl.Type.Params.List[0].Names) == 1 {
+		param = info.Defs[t.Decl.Type.Params.List[0].Names[0]]
+	}
+	reserved := w.Godi.Types.Scope().Lookup("reservedTypes")
+	reads := false
+	ast.Inspect(t.Decl.Body, func(n ast.Node) bool {
+		if ix, ok := n.(*ast.IndexExpr); ok && reserved != nil && objOf(info, ix.X) == reserved && objOf(info, ix.Index) == param {
+			reads = true
+		}
+		return true
+	})
+	// nothing else decides the answer: the body has no other condition
+	conds := 0
+	ast.Inspect(t.Decl.Body, func(n ast.Node) bool {
+		switch n.(type) {
+		case *ast.IfStmt, *ast.SwitchStmt, *ast.ForStmt, *ast.RangeStmt:
+			conds++
+		}
+		return true
+	})
+	return reads && conds == 0
+}
+
+// reservedPredicateCalls: the texts of the calls pred(dep.Type) in fi with pred a reserved predicate.
+func reservedPredicateCalls(w *World, fi *FuncInfo, dep types.Object) []string {
+	info := fi.Pkg.TypesInfo
+	var out []string
+	for _, c := range callsIn(fi.Decl.Body, true) {
+		if cal := callee(info, c); cal != nil && reservedPredicate(w, cal) && len(c.Args) == 1 {
+			if isFieldNamed(info, c.Args[0], "Type") && objOf(info, selBase(c.Args[0])) == dep {
+				out = append(out, exprStr(c))
+			}
+		}
+	}
+	return out
 }
